@@ -80,7 +80,10 @@ def roundtrip(chk):
         if k == 1:
             return tuple(val(d - 1) for _ in range(n))
         if k == 2:
-            return {rng.choice(["a", "b", 1, 2.5, None, (1, 2)]): val(d - 1) for _ in range(n)}
+            # keys of every hashable kind as_model accepts: raw values and already-built models (keywords above all)
+            # (of the models only keywords, which evaluate to themselves: a String model key evaluates to a str, which is not `==` to it)
+            return {rng.choice(["a", "b", 1, 2.5, None, (1, 2), True, b"k", hm.Keyword("kw"), hm.Keyword("a-b"),
+                                (hm.Keyword("in-tuple"), 1)]): val(d - 1) for _ in range(n)}
         return {x for x in (rng.choice([1, "s", None, 2.5, (1,), b"b"]) for _ in range(n))}
     bad = None
     n = 500 if chk.tier == "quick" else 8000
@@ -107,6 +110,32 @@ def roundtrip(chk):
             break
     chk.ob("rtc/hy.eval(as_model(v)) == v and as_model(as_model(v)) == as_model(v) on generated nested values", bad is None, "rtc", "bounded",
            detail=str(bad), replay={"confirmed": bad is not None, "input": repr(bad)})
+    # already-built models as dictionary keys are promoted like any other element (as_model is the identity on models)
+    badk = None
+    for key in (hm.Keyword("kw"), hm.String("sk"), hm.Integer(7), hm.Float(1.5), hm.Bytes(b"bk"), hm.Symbol("sym"), hm.Tuple([hm.Integer(1)])):
+        for wrap in (lambda d: d, lambda d: [d], lambda d: {"outer": (d,)}):
+            try:
+                m_ = hy.as_model(wrap({key: [1]}))
+                dicts = []
+
+                def walk(x):
+                    if isinstance(x, hm.Dict):
+                        dicts.append(x)
+                    if isinstance(x, hm.Sequence):
+                        for y in x:
+                            walk(y)
+                walk(m_)
+                inner = dicts[-1]              # the innermost dictionary is the one with the model key
+                okk = type(inner[0]) is type(key) and inner[0] == key
+            except Exception as e:  # noqa: BLE001
+                okk = False
+                hm._seen.clear()
+                badk = badk or (repr(key), f"{type(e).__name__}: {e}")
+            chk.case(("model-key", repr(key)))
+            if not okk and badk is None:
+                badk = (repr(key), "key not kept")
+    chk.ob("rtc/a dictionary whose key is already a model is promoted to a Dict model with that key", badk is None, "rtc", "bounded", detail=str(badk),
+           replay=None if badk is None else {"confirmed": True, "input": f"hy.as_model({{{badk[0]}: [1]}})", "observed": badk[1]})
     # histories with self-referential structures
     bad = None
     for i in range(100):
